@@ -44,6 +44,14 @@ def run_op(p, e, op, stash=None, meta=True, shared=None):
     try:
         if kind == 'parse':
             return {'ok': canon(p.parse(W.as_input(e, op[1]), start=op[2]), meta)}
+        if kind == 'parse_as':
+            # the same instance fed another input type than usual (str / TextSlice over a padded buffer)
+            if op[3] == 'slice':
+                from lark.utils import TextSlice
+                inp = TextSlice('##' + op[1] + '##', 2, 2 + len(op[1]))
+            else:
+                inp = op[1]
+            return {'ok': canon(p.parse(inp, start=op[2]), meta)}
         if kind == 'parse_on_error':
             seen = []
 
